@@ -1,0 +1,351 @@
+//go:build verif
+
+// Contracts for package plenccodec, checked by /verif/engine (plencvc). This
+// file contains comments only and is compiled only under the verif build tag.
+//
+// Conventions: loadT(T, ptr) is the value of (type parameter) type T stored at
+// ptr; loadstr / loadslice read a string / slice header and denote its
+// contents; "appends data S" means result == old(data) ++ S with Go's append
+// semantics; "writes ptr n" is the frame: nothing but the n bytes at ptr
+// changes in the typed heap.
+
+package plenccodec
+
+// ---------------------------------------------------------------------------
+// bool
+
+//@ func plenccodec.BoolCodec.Omit
+//@   safety C02
+//@   assigns nothing
+//@   ensures[C02,C09] result == !loadbool(ptr)
+
+//@ func plenccodec.BoolCodec.Size
+//@   safety C05
+//@   assigns nothing
+//@   ensures[C05] result == 1 + len(tag)
+
+//@ func plenccodec.BoolCodec.append
+//@   safety C02 C11
+//@   assigns nothing
+//@   appends[C02,C05,C06,C11] data venc(ite(loadbool(ptr), 1, 0))
+
+//@ func plenccodec.BoolCodec.Append
+//@   safety C02 C11
+//@   assigns nothing
+//@   appends[C02,C05,C06,C11] data bytes(tag) ++ venc(ite(loadbool(ptr), 1, 0))
+
+//@ func plenccodec.BoolCodec.Read
+//@   safety C04 C11
+//@   assigns[C10,C11] nothing
+//@   writes ptr 1
+//@   ensures[C04,C05] err == nil ==> 0 <= n && n <= len(data)
+//@   ensures[C04] err != nil ==> n == 0
+//@   ensures[C01,C05] forall u uint64 :: len(data) >= vlen(u) && at(data, 0, venc(u), 10) ==> err == nil && n == vlen(u) && loadbool(ptr) == (u != 0)
+
+//@ func plenccodec.BoolCodec.WireType
+//@   safety C02
+//@   assigns nothing
+//@   ensures[C02,C12] result == 0
+
+//@ func plenccodec.BoolCodec.Descriptor
+//@   safety C14
+//@   assigns nothing
+//@   ensures[C14,C09] result.Type == 7 && result.Index == 0 && len(result.Name) == 0 && len(result.TypeName) == 0 && len(result.Elements) == 0 && !result.ExplicitPresence && result.LogicalType == 0
+
+// ---------------------------------------------------------------------------
+// signed integers: zig-zag varint of the sign-extended value
+
+//@ func plenccodec.IntCodec[T].Omit
+//@   safety C02
+//@   assigns nothing
+//@   ensures[C02,C09] result == (loadT(T, ptr) == 0)
+
+//@ func plenccodec.IntCodec[T].size
+//@   safety C05
+//@   assigns nothing
+//@   ensures[C05] result == vlen(zz(sext64(loadT(T, ptr))))
+
+//@ func plenccodec.IntCodec[T].Size
+//@   safety C05
+//@   assigns nothing
+//@   ensures[C05] result == vlen(zz(sext64(loadT(T, ptr)))) + len(tag)
+
+//@ func plenccodec.IntCodec[T].append
+//@   safety C02 C11
+//@   assigns nothing
+//@   appends[C02,C05,C06,C11] data venc(zz(sext64(loadT(T, ptr))))
+
+//@ func plenccodec.IntCodec[T].Append
+//@   safety C02 C11
+//@   assigns nothing
+//@   appends[C02,C05,C06,C11] data bytes(tag) ++ venc(zz(sext64(loadT(T, ptr))))
+
+//@ func plenccodec.IntCodec[T].Read
+//@   safety C04 C11
+//@   assigns[C10,C11] nothing
+//@   writes ptr bits(T) / 8
+//@   ensures[C04,C05] err == nil ==> 0 <= n && n <= len(data)
+//@   ensures[C04] err != nil ==> n == 0
+//@   ensures[C01,C05] forall x T :: len(data) >= vlen(zz(sext64(x))) && at(data, 0, venc(zz(sext64(x))), 10) ==> err == nil && n == vlen(zz(sext64(x))) && loadT(T, ptr) == x
+
+//@ func plenccodec.IntCodec[T].WireType
+//@   safety C02
+//@   assigns nothing
+//@   ensures[C02,C12] result == 0
+
+//@ func plenccodec.IntCodec[T].Descriptor
+//@   safety C14
+//@   assigns nothing
+//@   ensures[C14,C09] result.Type == 0 && result.Index == 0 && len(result.Name) == 0 && len(result.TypeName) == 0 && len(result.Elements) == 0 && !result.ExplicitPresence && result.LogicalType == 0
+
+// ---------------------------------------------------------------------------
+// unsigned integers: plain varint of the zero-extended value
+
+//@ func plenccodec.UintCodec[T].Omit
+//@   safety C02
+//@   assigns nothing
+//@   ensures[C02,C09] result == (loadT(T, ptr) == 0)
+
+//@ func plenccodec.UintCodec[T].size
+//@   safety C05
+//@   assigns nothing
+//@   ensures[C05] result == vlen(zext64(loadT(T, ptr)))
+
+//@ func plenccodec.UintCodec[T].Size
+//@   safety C05
+//@   assigns nothing
+//@   ensures[C05] result == vlen(zext64(loadT(T, ptr))) + len(tag)
+
+//@ func plenccodec.UintCodec[T].append
+//@   safety C02 C11
+//@   assigns nothing
+//@   appends[C02,C05,C06,C11] data venc(zext64(loadT(T, ptr)))
+
+//@ func plenccodec.UintCodec[T].Append
+//@   safety C02 C11
+//@   assigns nothing
+//@   appends[C02,C05,C06,C11] data bytes(tag) ++ venc(zext64(loadT(T, ptr)))
+
+//@ func plenccodec.UintCodec[T].Read
+//@   safety C04 C11
+//@   assigns[C10,C11] nothing
+//@   writes ptr bits(T) / 8
+//@   ensures[C04,C05] err == nil ==> 0 <= n && n <= len(data)
+//@   ensures[C04] err != nil ==> n == 0
+//@   ensures[C01,C05] forall x T :: len(data) >= vlen(zext64(x)) && at(data, 0, venc(zext64(x)), 10) ==> err == nil && n == vlen(zext64(x)) && loadT(T, ptr) == x
+
+//@ func plenccodec.UintCodec[T].WireType
+//@   safety C02
+//@   assigns nothing
+//@   ensures[C02,C12] result == 0
+
+//@ func plenccodec.UintCodec[T].Descriptor
+//@   safety C14
+//@   assigns nothing
+//@   ensures[C14,C09] result.Type == 1 && result.Index == 0 && len(result.Name) == 0 && len(result.TypeName) == 0 && len(result.Elements) == 0 && !result.ExplicitPresence && result.LogicalType == 0
+
+// ---------------------------------------------------------------------------
+// flat integers: the unsigned codec applied to the same bits (promoted methods)
+
+//@ func plenccodec.FlatIntCodec[T].Omit
+//@   safety C02
+//@   assigns nothing
+//@   ensures[C02,C09] result == (loadT(T, ptr) == 0)
+
+//@ func plenccodec.FlatIntCodec[T].Size
+//@   safety C05
+//@   assigns nothing
+//@   ensures[C05] result == vlen(zext64(loadT(T, ptr))) + len(tag)
+
+//@ func plenccodec.FlatIntCodec[T].Append
+//@   safety C02 C11
+//@   assigns nothing
+//@   appends[C02,C05,C06,C11] data bytes(tag) ++ venc(zext64(loadT(T, ptr)))
+
+//@ func plenccodec.FlatIntCodec[T].Read
+//@   safety C04 C11
+//@   assigns[C10,C11] nothing
+//@   writes ptr bits(T) / 8
+//@   ensures[C04,C05] err == nil ==> 0 <= n && n <= len(data)
+//@   ensures[C04] err != nil ==> n == 0
+//@   ensures[C01,C05] forall x T :: len(data) >= vlen(zext64(x)) && at(data, 0, venc(zext64(x)), 10) ==> err == nil && n == vlen(zext64(x)) && loadT(T, ptr) == x
+
+//@ func plenccodec.FlatIntCodec[T].WireType
+//@   safety C02
+//@   assigns nothing
+//@   ensures[C02,C12] result == 0
+
+//@ func plenccodec.FlatIntCodec[T].Descriptor
+//@   safety C14
+//@   assigns nothing
+//@   ensures[C14,C09] result.Type == 11 && result.Index == 0 && len(result.Name) == 0 && len(result.TypeName) == 0 && len(result.Elements) == 0 && !result.ExplicitPresence && result.LogicalType == 0
+
+// ---------------------------------------------------------------------------
+// floats: little-endian fixed width bit patterns
+
+//@ func plenccodec.Float64Codec.Omit
+//@   safety C02
+//@   assigns nothing
+//@   ensures[C02,C09] result == ((load64(ptr) << 1) == 0)          # +0 and -0
+
+//@ func plenccodec.Float64Codec.Size
+//@   safety C05
+//@   assigns nothing
+//@   ensures[C05] result == 8 + len(tag)
+
+//@ func plenccodec.Float64Codec.append
+//@   safety C02 C11
+//@   assigns nothing
+//@   appends[C02,C05,C06,C11] data le64(load64(ptr))
+
+//@ func plenccodec.Float64Codec.Append
+//@   safety C02 C11
+//@   assigns nothing
+//@   appends[C02,C05,C06,C11] data bytes(tag) ++ le64(load64(ptr))
+
+//@ func plenccodec.Float64Codec.Read
+//@   safety C04 C11
+//@   assigns[C10,C11] nothing
+//@   writes ptr 8
+//@   ensures[C04,C05] err == nil ==> 0 <= n && n <= len(data)
+//@   ensures[C04] err != nil ==> n == 0
+//@   ensures[C01,C05] forall b uint64 :: len(data) >= 8 && at(data, 0, le64(b), 8) ==> err == nil && n == 8 && load64(ptr) == b
+//@   ensures[C01,C09] len(data) == 0 ==> err == nil && n == 0 && load64(ptr) == 0
+
+//@ func plenccodec.Float64Codec.WireType
+//@   safety C02
+//@   assigns nothing
+//@   ensures[C02,C12] result == 1
+
+//@ func plenccodec.Float64Codec.Descriptor
+//@   safety C14
+//@   assigns nothing
+//@   ensures[C14,C09] result.Type == 3 && result.Index == 0 && len(result.Name) == 0 && len(result.TypeName) == 0 && len(result.Elements) == 0 && !result.ExplicitPresence && result.LogicalType == 0
+
+//@ func plenccodec.Float32Codec.Omit
+//@   safety C02
+//@   assigns nothing
+//@   ensures[C02,C09] result == ((load32(ptr) << 1) == 0)
+
+//@ func plenccodec.Float32Codec.Size
+//@   safety C05
+//@   assigns nothing
+//@   ensures[C05] result == 4 + len(tag)
+
+//@ func plenccodec.Float32Codec.append
+//@   safety C02 C11
+//@   assigns nothing
+//@   appends[C02,C05,C06,C11] data le32(load32(ptr))
+
+//@ func plenccodec.Float32Codec.Append
+//@   safety C02 C11
+//@   assigns nothing
+//@   appends[C02,C05,C06,C11] data bytes(tag) ++ le32(load32(ptr))
+
+//@ func plenccodec.Float32Codec.Read
+//@   safety C04 C11
+//@   assigns[C10,C11] nothing
+//@   writes ptr 4
+//@   ensures[C04,C05] err == nil ==> 0 <= n && n <= len(data)
+//@   ensures[C04] err != nil ==> n == 0
+//@   ensures[C01,C05] forall b uint32 :: len(data) >= 4 && at(data, 0, le32(b), 4) ==> err == nil && n == 4 && load32(ptr) == b
+//@   ensures[C01,C09] len(data) == 0 ==> err == nil && n == 0 && load32(ptr) == 0
+
+//@ func plenccodec.Float32Codec.WireType
+//@   safety C02
+//@   assigns nothing
+//@   ensures[C02,C12] result == 5
+
+//@ func plenccodec.Float32Codec.Descriptor
+//@   safety C14
+//@   assigns nothing
+//@   ensures[C14,C09] result.Type == 2 && result.Index == 0 && len(result.Name) == 0 && len(result.TypeName) == 0 && len(result.Elements) == 0 && !result.ExplicitPresence && result.LogicalType == 0
+
+// ---------------------------------------------------------------------------
+// strings and byte slices: the bytes themselves, length-prefixed when tagged
+
+//@ func plenccodec.StringCodec.Omit
+//@   safety C02
+//@   assigns nothing
+//@   ensures[C02,C09] result == (len(loadstr(ptr)) == 0)
+
+//@ func plenccodec.StringCodec.size
+//@   safety C05
+//@   assigns nothing
+//@   ensures[C05] result == len(loadstr(ptr))
+
+//@ func plenccodec.StringCodec.Size
+//@   safety C05
+//@   assigns nothing
+//@   ensures[C05] len(tag) == 0 ==> result == len(loadstr(ptr))
+//@   ensures[C05] len(tag) > 0 ==> result == len(tag) + vlen(uint64(len(loadstr(ptr)))) + len(loadstr(ptr))
+
+//@ func plenccodec.StringCodec.append
+//@   safety C02 C11
+//@   assigns nothing
+//@   appends[C02,C05,C06,C11] data bytes(loadstr(ptr))
+
+//@ func plenccodec.StringCodec.Append
+//@   safety C02 C11
+//@   assigns nothing
+//@   appends[C02,C05,C06,C11] data ite(len(tag) != 0, bytes(tag) ++ venc(uint64(len(loadstr(ptr)))) ++ bytes(loadstr(ptr)), bytes(loadstr(ptr)))
+
+//@ func plenccodec.StringCodec.Read
+//@   safety C04 C11
+//@   assigns[C10,C11] nothing
+//@   writes ptr 16
+//@   ensures[C04,C05,C01] err == nil && n == len(data)
+//@   ensures[C01,C11] bytes(loadstr(ptr)) == old(bytes(data))
+
+//@ func plenccodec.StringCodec.WireType
+//@   safety C02
+//@   assigns nothing
+//@   ensures[C02,C12] result == 2
+
+//@ func plenccodec.StringCodec.Descriptor
+//@   safety C14
+//@   assigns nothing
+//@   ensures[C14,C09] result.Type == 4 && result.Index == 0 && len(result.Name) == 0 && len(result.TypeName) == 0 && len(result.Elements) == 0 && !result.ExplicitPresence && result.LogicalType == 0
+
+//@ func plenccodec.BytesCodec.Omit
+//@   safety C02
+//@   assigns nothing
+//@   ensures[C02,C09] result == (len(loadslice(ptr)) == 0)
+
+//@ func plenccodec.BytesCodec.size
+//@   safety C05
+//@   assigns nothing
+//@   ensures[C05] result == len(loadslice(ptr))
+
+//@ func plenccodec.BytesCodec.Size
+//@   safety C05
+//@   assigns nothing
+//@   ensures[C05] len(tag) == 0 ==> result == len(loadslice(ptr))
+//@   ensures[C05] len(tag) > 0 ==> result == len(tag) + vlen(uint64(len(loadslice(ptr)))) + len(loadslice(ptr))
+
+//@ func plenccodec.BytesCodec.append
+//@   safety C02 C11
+//@   assigns nothing
+//@   appends[C02,C05,C06,C11] data bytes(loadslice(ptr))
+
+//@ func plenccodec.BytesCodec.Append
+//@   safety C02 C11
+//@   assigns nothing
+//@   appends[C02,C05,C06,C11] data ite(len(tag) != 0, bytes(tag) ++ venc(uint64(len(loadslice(ptr)))) ++ bytes(loadslice(ptr)), bytes(loadslice(ptr)))
+
+//@ func plenccodec.BytesCodec.Read
+//@   safety C04 C11
+//@   assigns[C10,C11] nothing
+//@   writes ptr 24
+//@   ensures[C04,C05,C01] err == nil && n == len(data)
+//@   ensures[C01,C11] bytes(loadslice(ptr)) == old(bytes(data))
+
+//@ func plenccodec.BytesCodec.WireType
+//@   safety C02
+//@   assigns nothing
+//@   ensures[C02,C12] result == 2
+
+//@ func plenccodec.BytesCodec.Descriptor
+//@   safety C14
+//@   assigns nothing
+//@   ensures[C14,C09] result.Type == 4 && result.Index == 0 && len(result.Name) == 0 && len(result.TypeName) == 0 && len(result.Elements) == 0 && !result.ExplicitPresence && result.LogicalType == 0
